@@ -12,7 +12,7 @@ import (
 )
 
 // typed expression generator for the Cond.tla fragment
-var condParamTypes = []string{"int", "uint", "string", "bool", "list<string>", "list<int>"}
+var condParamTypes = []string{"int", "uint", "string", "bool", "list<string>", "list<int>", "map<int>", "map<string>"}
 
 func genParams(r *rand.Rand) []Param {
 	n := 1 + r.Intn(3)
@@ -62,6 +62,12 @@ func genBoolExpr(r *rand.Rand, ps []Param, depth int) *Expr {
 			return &Expr{K: "in", A: &Expr{K: "lit", Ty: "string", V: "a"}, B: &Expr{K: "param", N: p.N}}
 		case "list<int>":
 			return &Expr{K: "in", A: &Expr{K: "lit", Ty: "int", V: int64(r.Intn(5))}, B: &Expr{K: "param", N: p.N}}
+		case "map<int>":
+			// arithmetic on the looked-up value: it must have been converted to the declared element type
+			return &Expr{K: pick(r, []string{"lt", "ge", "eq"}), A: &Expr{K: "add", A: &Expr{K: "idx", N: pick(r, []string{"k", "j"}), A: &Expr{K: "param", N: p.N}}, B: &Expr{K: "lit", Ty: "int", V: int64(1)}},
+				B: &Expr{K: "lit", Ty: "int", V: int64(r.Intn(6))}}
+		case "map<string>":
+			return &Expr{K: pick(r, []string{"eq", "ne"}), A: &Expr{K: "idx", N: pick(r, []string{"k", "j"}), A: &Expr{K: "param", N: p.N}}, B: &Expr{K: "lit", Ty: "string", V: pick(r, []string{"a", "b"})}}
 		case "uint":
 			// uint literals are written 3u in CEL; compare two uint parameters or skip
 			if us := paramsOf(ps, "uint"); len(us) > 1 {
@@ -76,7 +82,7 @@ func genBoolExpr(r *rand.Rand, ps []Param, depth int) *Expr {
 func genValFor(r *rand.Rand, ty string, flavour string) Val {
 	if flavour == "mistyped" {
 		switch ty {
-		case "int", "uint", "list<int>", "list<string>":
+		case "int", "uint", "list<int>", "list<string>", "map<int>", "map<string>":
 			return pick(r, []Val{StrVal("abc"), BoolVal(true), StrVal("")})
 		case "string":
 			return pick(r, []Val{NumVal(3), BoolVal(false), ListVal(StrVal("a"))})
@@ -125,6 +131,24 @@ func genValFor(r *rand.Rand, ty string, flavour string) Val {
 			vs = append(vs, StrVal("x"))
 		}
 		return ListVal(vs...)
+	case "map<int>", "map<string>":
+		m := map[string]Val{}
+		for _, k := range []string{"k", "j"} {
+			if chance(r, 0.8) { // a key the expression looks up may be absent: evaluation fails
+				switch {
+				case ty == "map<string>":
+					m[k] = StrVal(pick(r, []string{"a", "b", "5"}))
+				case chance(r, 0.3):
+					m[k] = StrVal(itoa(int64(r.Intn(6)))) // numeric string: converted like a scalar int
+				default:
+					m[k] = NumVal(int64(r.Intn(6)))
+				}
+			}
+		}
+		if chance(r, 0.1) {
+			m["z"] = BoolVal(true) // wrong element kind
+		}
+		return Val{K: "map", V: m}
 	}
 	return Val{K: "null"}
 }
@@ -192,8 +216,8 @@ func C25(run *Run) {
 	run.AddSample(events[len(events)/2])
 	validatePure2(run, "CondTrace", events)
 	run.Coverage["conditions_compiled"] = compiled
-	run.Coverage["rule"] = "generated conditions over 1-3 parameters of types int, uint, string, bool, list<string>, list<int> with comparison / equality / membership / boolean operators (depth <= 2), compiled by the real CEL environment; three (request context, stored context) pairs each that agree, conflict, omit or mistype parameters (numeric strings, negative uints, wrong element kinds, undeclared names); eval.EvaluateTupleCondition's outcome (met / not met / error) judged by TLC against Cond.tla CondEval (stored value wins, conversion table, any declared parameter missing => fails); non-trivial = distinct evaluations"
-	run.Assumptions = []string{"only the CEL fragment of spec/core/Cond.tla is generated; arbitrary CEL (macros, extension functions, timestamps, durations, ip addresses, maps) is out of scope"}
+	run.Coverage["rule"] = "generated conditions over 1-3 parameters of types int, uint, string, bool, list<string>, list<int>, map<int>, map<string> with comparison / equality / membership / map lookup / addition / boolean operators (depth <= 2), compiled by the real CEL environment; three (request context, stored context) pairs each that agree, conflict, omit or mistype parameters (numeric strings, negative uints, wrong element kinds, undeclared names); eval.EvaluateTupleCondition's outcome (met / not met / error) judged by TLC against Cond.tla CondEval (stored value wins, conversion table, any declared parameter missing => fails); non-trivial = distinct evaluations"
+	run.Assumptions = []string{"only the CEL fragment of spec/core/Cond.tla is generated; arbitrary CEL (macros, extension functions, timestamps, durations, ip addresses) is out of scope"}
 }
 
 // validatePure2 is validatePure for trace specs living in spec/core.
